@@ -24,6 +24,14 @@ def close(a, b):
     return bool(np.max(np.abs(a[m] - b[m])) <= RTOL * sc)
 
 
+def uvar(dsx, sections):
+    """ufunc_per_section(func='var') for all locations together, per reference series and per stretch, as one flat list"""
+    a = dsx.dts.ufunc_per_section(sections=sections, label="st", func="var", calc_per="all")
+    b = dsx.dts.ufunc_per_section(sections=sections, label="st", func="var", calc_per="section")
+    c = dsx.dts.ufunc_per_section(sections=sections, label="st", func="var", calc_per="stretch")
+    return [float(np.asarray(a))] + [float(np.asarray(b[k])) for k in sorted(b)] + [float(np.asarray(v)) for k in sorted(c) for v in c[k]]
+
+
 def schedulers(ctx):
     out = [("synchronous", None)]
     for w in ((1, 4) if ctx.quick else (1, 2, 4, 8, 16)):
@@ -100,6 +108,13 @@ def run(ctx):
             v_exp, r_exp = variance_stokes_exponential(ds["st"], f.sections, ds["userAcquisitionTimeFW"], reshape_residuals=True)
             v_const, v_exp, r_const, r_exp = float(v_const), float(v_exp), np.asarray(r_const.values), np.asarray(r_exp.values)
             u_eager = np.asarray(ds.dts.ufunc_per_section(sections=f.sections, label="st", temp_err=True, calc_per="all"))
+            uv_eager = uvar(ds, f.sections)
+            ixs = {k_: [np.flatnonzero((ds.x.values >= sl.start) & (ds.x.values <= sl.stop)) for sl in f.sections[k_]] for k_ in f.sections}   # closed stretches (C15)
+            stv = np.asarray(ds["st"].values)
+            uv_ref = ([float(np.var(stv[np.concatenate([i for k_ in f.sections for i in ixs[k_]])], ddof=1))] + [float(np.var(stv[np.concatenate(ixs[k_])], ddof=1)) for k_ in sorted(ixs)]
+                      + [float(np.var(stv[i], ddof=1)) for k_ in sorted(ixs) for i in ixs[k_]])
+            if not np.allclose(uv_eager, uv_ref, rtol=1e-9):
+                ctx.violation("ufunc-var-differs-from-sample-variance", f"ufunc_per_section(func='var') in memory {uv_eager} vs the sample variances {uv_ref}", {**p})
             import contextlib, io
             # the linear estimator is run with the baths listed in ROTATED fibre order (2nd, 3rd, ..., 1st): a reordering that is not its own inverse
             keys_x = sorted(f.sections, key=lambda k_: min(sl.start for sl in f.sections[k_]))
@@ -132,6 +147,7 @@ def run(ctx):
                         vc, rc_ = float(vc), np.asarray(rc_.values)
                         re_ = r_exp
                         u = np.asarray(dsc.dts.ufunc_per_section(sections=f.sections, label="st", temp_err=True, calc_per="all"))
+                        uv = uvar(dsc, f.sections)
                         lim_exp = 1 if ctx.quick else 10   # per case: the estimator drives LSQR through dask and costs 10-60 s per call
                         if nx // cx <= 4 and nt // ct <= 4 and workers in (None, 4) and nexp.get(p["seed"], 0) < lim_exp:
                             nexp[p["seed"]] = nexp.get(p["seed"], 0) + 1
@@ -164,6 +180,8 @@ def run(ctx):
                     ctx.violation(f"chunked-linear-raised:{type(ex).__name__}", f"variance_stokes_linear on dask-backed input raised {type(ex).__name__}: {str(ex)[:120]}", rec)
                 if not close(u, u_eager):
                     ctx.violation("chunked-ufunc-differs", "ufunc_per_section on chunked data differs from in memory", rec)
+                if not np.allclose(uv, uv_eager, rtol=1e-9):
+                    ctx.violation("chunked-ufunc-var-differs", f"ufunc_per_section(func='var') on chunked data {uv} differs from in memory {uv_eager}", rec)
 
 
 def replay(ctx, data):
